@@ -388,8 +388,13 @@ impl Ctx {
             "seed": self.seed,
             "case": cv,
         });
-        if let Ok(mut fh) = std::fs::File::create(&path) {
+        // several worker threads may shrink to the same minimal case: write to a private temporary
+        // name and rename, so the file is never a mixture of two writers
+        let tmp = dir.join(format!(".tmp-{:016x}-{:?}-{}", h, std::thread::current().id(), std::process::id()));
+        if let Ok(mut fh) = std::fs::File::create(&tmp) {
             let _ = fh.write_all(serde_json::to_string_pretty(&doc).unwrap().as_bytes());
+            drop(fh);
+            let _ = std::fs::rename(&tmp, &path);
         }
         path.to_string_lossy().to_string()
     }
